@@ -475,9 +475,6 @@ Proof.
 Qed.
 
 (* ---- the loop over the variables ---- *)
-Definition tail_text (infos : list (list N)) : list N :=
-  concat (map (fun y => ch_COMMA :: y) infos).
-
 Lemma all_some_cons : forall v vs infos,
   all_some (map var_info_text (v :: vs)) = Some infos ->
   exists info infos', infos = info :: infos' /\ var_info_text v = Some info /\
@@ -741,5 +738,605 @@ Proof.
   - intros H6. destruct (test_fail f s ci c Hg Hc Hf (H6' H6)) as (F1 & F2 & _).
     { rewrite Ha. exact I. }
     split; assumption.
+Qed.
+
+(* ================= 4. the command list ================= *)
+
+Lemma cmd_by_index_concat : forall gs i, cmd_by_index gs i = nth_error (concat gs) i.
+Proof.
+  induction gs as [|g gs IH]; intros i; cbn [cmd_by_index concat].
+  - destruct i; reflexivity.
+  - destruct (Nat.ltb_spec i (length g)) as [H|H].
+    + rewrite nth_error_app1 by exact H. reflexivity.
+    + rewrite nth_error_app2 by exact H. apply IH.
+Qed.
+
+Ltac sst :=
+  cbn [k u cbuf ubuf mem dis_cmd dis_grp fault gL gS gR
+       k_index k_partial k_length k_position k_write_size k_cmd k_var k_type k_char k_state
+       k_cr k_hold k_hold_exit k_wbuf k_wstate k_wafter k_implicit
+       set_k set_cbuf set_fault set_gS
+       set_k_index set_k_length set_k_position set_k_cmd set_k_type set_k_state
+       set_k_wbuf set_k_wstate set_k_wafter
+       setk_index setk_length setk_position setk_cmd setk_type setk_state
+       setk_wbuf setk_wstate setk_wafter
+       g_buf g_pos setg_buf setg_pos start_flush_raw_c start_flush_c].
+
+(* s0 = the state in which the listing was requested *)
+Definition LInv (s0 s : state) (i : nat) (ty : ctype) (first : bool) : Prop :=
+  fault s = false /\ k_state (k s) = CS_PRINT_CMD /\ k_index (k s) = i /\ k_type (k s) = ty /\
+  (k_length (k s) =? 0) = first /\ length (cbuf s) = length (cbuf s0) /\
+  k_cr (k s) = k_cr (k s0) /\ dis_cmd s = dis_cmd s0 /\ dis_grp s = dis_grp s0.
+
+Definition EndState (txt : list N) (s : state) : Prop :=
+  fault s = false /\ k_state (k s) = CS_FLUSH_WAIT /\ k_wafter (k s) = CS_AFTER_RESET /\
+  text_of (cbuf s) = txt.
+
+Definition cmd_line (c : cmd) (nl : list N) (first : bool) (sfx : list N) : list N :=
+  (if first then nl else []) ++ txt_AT ++ c_name c ++ sfx ++ nl.
+
+Lemma nl_chars_eq : forall s s0, k_cr (k s) = k_cr (k s0) -> nl_chars s = nl_chars s0.
+Proof. intros s s0 H. unfold nl_chars. rewrite H. reflexivity. Qed.
+
+Lemma not_in_nl : forall s, ~ In 0%N (nl_chars s).
+Proof.
+  intros s. unfold nl_chars. destruct (k_cr (k s)); cbn [In]; intros H;
+    repeat (destruct H as [H|H]; [discriminate H|]); exact H.
+Qed.
+
+Lemma not_in_app : forall (a b : list N), ~ In 0%N a -> ~ In 0%N b -> ~ In 0%N (a ++ b).
+Proof. intros a b Ha Hb H. apply in_app_or in H. tauto. Qed.
+
+Lemma not_in_AT : ~ In 0%N txt_AT.
+Proof. unfold txt_AT. cbn [In]. intros H. repeat (destruct H as [H|H]; [discriminate H|]). exact H. Qed.
+
+Lemma not_in_suffix : forall fm, ~ In 0%N (form_suffix fm).
+Proof.
+  intros fm. destruct fm; cbn [form_suffix In]; intros H;
+    repeat (destruct H as [H|H]; [discriminate H|]); exact H.
+Qed.
+
+Lemma not_in_line : forall c s0 first fm, ~ In 0%N (c_name c) ->
+  ~ In 0%N (cmd_line c (nl_chars s0) first (form_suffix fm)).
+Proof.
+  intros. unfold cmd_line. repeat apply not_in_app; try assumption.
+  - destruct first; [apply not_in_nl|intros []].
+  - apply not_in_AT.
+  - apply not_in_suffix.
+  - apply not_in_nl.
+Qed.
+
+Lemma pcf_ok : forall s0 s i ty first c sfx next,
+  LInv s0 s i ty first -> ~ In 0%N (cmd_line c (nl_chars s0) first sfx) ->
+  length (cmd_line c (nl_chars s0) first sfx) < length (cbuf s0) ->
+  let s1 := print_cmd_form s c true sfx next in
+  k_state (k s1) = CS_FLUSH_WAIT /\ k_wafter (k s1) = CS_PRINT_CMD /\
+  text_of (cbuf s1) = cmd_line c (nl_chars s0) first sfx /\
+  LInv s0 (setk_state CS_PRINT_CMD s1) i next false.
+Proof.
+  intros s0 s i ty first c sfx next (Hf & Hst & Hi & Hty & Hkl & Hlen & Hcr & Hdc & Hdg) Hn0 Hl.
+  unfold cmd_line in *. rewrite <- Hlen in Hl.
+  unfold print_cmd_form, print_current_cmd_full_name. cbv zeta.
+  change (k_length (k (setk_position 0 s))) with (k_length (k s)). rewrite Hkl.
+  destruct first.
+  - rewrite print_string_as_strings.
+    rewrite (nl_chars_eq (setk_position 0 s) s0) by exact Hcr.
+    destruct (ps_ok ATCMD (setk_position 0 s) [] (cbuf s) (nl_chars s0) [] eq_refl eq_refl)
+      as [r1 [E1 L1]].
+    { cbn [concat]. rewrite !app_length in *. cbn [length]. lia. }
+    rewrite E1. cbn [negb]. cbn [concat app] in E1, L1 |- *. rewrite app_nil_r in *.
+    match goal with |- context [nl_chars (setk_length 1 ?x)] =>
+      rewrite (nl_chars_eq (setk_length 1 x) s0) by exact Hcr end.
+    match goal with |- context [print_strings ATCMD ?x (?p :: ?ps)] =>
+      destruct (ps_ok ATCMD x (nl_chars s0) (0%N :: r1) p ps eq_refl eq_refl) as [r2 [E2 L2]] end.
+    { cbn [concat length] in *. rewrite !app_length in *. cbn [length] in *. lia. }
+    rewrite E2. cbn [negb]. cbn [concat] in E2, L2 |- *. rewrite app_nil_r in *.
+    repeat split; try reflexivity; sst; try assumption.
+    + apply text_of_app0. exact Hn0.
+    + rewrite !app_length in *. cbn [length] in *. lia.
+  - match goal with |- context [nl_chars (setk_position 0 ?x)] =>
+      rewrite (nl_chars_eq (setk_position 0 x) s0) by exact Hcr end.
+    cbn [negb].
+    match goal with |- context [print_strings ATCMD ?x (?p :: ?ps)] =>
+      destruct (ps_ok ATCMD x [] (cbuf s) p ps eq_refl eq_refl) as [r2 [E2 L2]] end.
+    { cbn [concat length app] in *. rewrite !app_length in *. cbn [length] in *. lia. }
+    rewrite E2. cbn [negb]. cbn [concat app] in E2, L2 |- *. rewrite app_nil_r in *.
+    repeat split; try reflexivity; sst; try assumption.
+    + apply text_of_app0. exact Hn0.
+    + rewrite !app_length in *. cbn [length] in *. lia.
+Qed.
+
+Lemma ack_error_end : forall s, fault s = false -> 6 <= length (cbuf s) ->
+  EndState txt_ERROR (ack_error s).
+Proof.
+  intros s Hf H. destruct (ack_error_props s H) as (A1 & A2 & A3 & A4).
+  unfold EndState. rewrite A1, A2, A3, A4. repeat split; try reflexivity. exact Hf.
+Qed.
+
+Lemma ack_ok_end : forall s, fault s = false -> 6 <= length (cbuf s) ->
+  EndState txt_OK (ack_ok s).
+Proof.
+  intros s Hf H. destruct (ack_ok_props s H) as (A1 & A2 & A3 & A4).
+  unfold EndState. rewrite A1, A2, A3, A4. repeat split; try reflexivity. exact Hf.
+Qed.
+
+Lemma pcf_fail : forall s0 s i ty first c sfx next,
+  LInv s0 s i ty first -> 6 <= length (cbuf s0) ->
+  length (cbuf s0) <= length (cmd_line c (nl_chars s0) first sfx) ->
+  EndState txt_ERROR (print_cmd_form s c true sfx next).
+Proof.
+  intros s0 s i ty first c sfx next (Hf & Hst & Hi & Hty & Hkl & Hlen & Hcr & Hdc & Hdg) H6 Hl.
+  unfold cmd_line in *. rewrite <- Hlen in Hl, H6.
+  unfold print_cmd_form, print_current_cmd_full_name. cbv zeta.
+  change (k_length (k (setk_position 0 s))) with (k_length (k s)). rewrite Hkl.
+  destruct first.
+  - rewrite print_string_as_strings.
+    rewrite (nl_chars_eq (setk_position 0 s) s0) by exact Hcr.
+    destruct (Nat.lt_ge_cases (length (nl_chars s0)) (length (cbuf s))) as [Hlt|Hge].
+    + destruct (ps_ok ATCMD (setk_position 0 s) [] (cbuf s) (nl_chars s0) [] eq_refl eq_refl)
+        as [r1 [E1 L1]].
+      { cbn [concat]. rewrite !app_length in *. cbn [length]. lia. }
+      rewrite E1. cbn [negb]. cbn [concat app] in E1, L1 |- *. rewrite app_nil_r in *.
+      match goal with |- context [nl_chars (setk_length 1 ?x)] =>
+        rewrite (nl_chars_eq (setk_length 1 x) s0) by exact Hcr end.
+      match goal with |- context [print_strings ATCMD ?x (?p :: ?ps)] =>
+        destruct (ps_fail ATCMD x (nl_chars s0) (0%N :: r1) p ps eq_refl eq_refl)
+          as [b [pos [E2 L2]]] end.
+      { cbn [concat length] in *. rewrite !app_length in *. cbn [length] in *. lia. }
+      rewrite E2. cbn [negb]. apply ack_error_end; sst; [exact Hf|].
+      rewrite L2. sst. rewrite !app_length in *. cbn [length] in *. lia.
+    + destruct (ps_fail ATCMD (setk_position 0 s) [] (cbuf s) (nl_chars s0) [] eq_refl eq_refl)
+        as [b [pos [E1 L1]]].
+      { cbn [concat]. rewrite !app_length in *. cbn [length]. lia. }
+      rewrite E1. cbn [negb]. apply ack_error_end; sst; [exact Hf|].
+      rewrite L1. sst. exact H6.
+  - match goal with |- context [nl_chars (setk_position 0 ?x)] =>
+      rewrite (nl_chars_eq (setk_position 0 x) s0) by exact Hcr end.
+    cbn [negb].
+    match goal with |- context [print_strings ATCMD ?x (?p :: ?ps)] =>
+      destruct (ps_fail ATCMD x [] (cbuf s) p ps eq_refl eq_refl) as [b [pos [E2 L2]]] end.
+    { cbn [concat length app] in *. rewrite !app_length in *. cbn [length] in *. lia. }
+    rewrite E2. cbn [negb]. apply ack_error_end; sst; [exact Hf|].
+    rewrite L2. sst. exact H6.
+Qed.
+
+(* ---- one call of print_cmd_list ---- *)
+Definition ty_of (fm : form) : ctype :=
+  match fm with F_RUN => T_RUN | F_READ => T_READ | F_WRITE => T_WRITE | F_TEST => T_TEST end.
+Definition next_of (fm : form) : ctype :=
+  match fm with F_RUN => T_READ | F_READ => T_WRITE | F_WRITE => T_TEST | F_TEST => T_TOTAL end.
+Definition avail (c : cmd) (fm : form) : bool :=
+  match fm with
+  | F_RUN => c_hrun c
+  | F_READ => c_hread c || vars_access_possible c RO
+  | F_WRITE => c_hwrite c || vars_access_possible c WO
+  | F_TEST => c_htest c || match c_vars c with [] => false | _ => true end
+  end.
+
+Lemma cstate_beq_refl : forall x, cstate_beq x x = true.
+Proof. destruct x; reflexivity. Qed.
+
+Lemma LInv_setcmd : forall s0 s i ty first x,
+  LInv s0 s i ty first -> LInv s0 (setk_cmd x s) i ty first.
+Proof. intros s0 s i ty first x H. exact H. Qed.
+
+Lemma pcl_form : forall s0 s i fm first c,
+  LInv s0 s i (ty_of fm) first -> nth_error (cmds D) i = Some c ->
+  print_cmd_list D s
+  = print_cmd_form (setk_cmd (Some i) s) c (avail c fm) (form_suffix fm) (next_of fm).
+Proof.
+  intros s0 s i fm first c (Hf & Hst & Hi & Hty & _) Hn.
+  unfold print_cmd_list. rewrite Hi, cmd_by_index_concat.
+  change (concat (d_groups D)) with (cmds D). rewrite Hn. cbv zeta.
+  change (k_type (k (setk_cmd (Some i) s))) with (k_type (k s)). rewrite Hty.
+  destruct fm; reflexivity.
+Qed.
+
+Lemma list_run_S : forall n s acc,
+  list_run D (S n) s acc =
+  if cstate_beq (k_state (k s)) CS_PRINT_CMD then
+    let s1 := print_cmd_list D s in
+    if cstate_beq (k_state (k s1)) CS_FLUSH_WAIT && cstate_beq (k_wafter (k s1)) CS_PRINT_CMD
+    then list_run D n (setk_state CS_PRINT_CMD s1) (acc ++ [text_of (cbuf s1)])
+    else list_run D n s1 acc
+  else (acc, s).
+Proof. reflexivity. Qed.
+
+Lemma list_run_stop : forall n s acc, k_state (k s) = CS_FLUSH_WAIT -> list_run D n s acc = (acc, s).
+Proof. intros [|n] s acc H; [reflexivity|]. rewrite list_run_S, H. reflexivity. Qed.
+
+Lemma run_form : forall s0 s i fm first c,
+  LInv s0 s i (ty_of fm) first -> nth_error (cmds D) i = Some c -> ~ In 0%N (c_name c) ->
+  6 <= length (cbuf s0) ->
+  if avail c fm then
+    if length (cmd_line c (nl_chars s0) first (form_suffix fm)) <? length (cbuf s0)
+    then exists s2, LInv s0 s2 i (next_of fm) false /\
+           forall fuel acc, list_run D (S fuel) s acc
+             = list_run D fuel s2 (acc ++ [cmd_line c (nl_chars s0) first (form_suffix fm)])
+    else exists s2, EndState txt_ERROR s2 /\
+           forall fuel acc, list_run D (S fuel) s acc = (acc, s2)
+  else exists s2, LInv s0 s2 i (next_of fm) first /\
+         forall fuel acc, list_run D (S fuel) s acc = list_run D fuel s2 acc.
+Proof.
+  intros s0 s i fm first c HL Hn Hn0 H6.
+  pose proof HL as (Hf & Hst & Hi & Hty & Hkl & Hlen & Hcr & Hdc & Hdg).
+  pose proof (pcl_form s0 s i fm first c HL Hn) as Epcl.
+  destruct (avail c fm) eqn:Eav.
+  - destruct (Nat.ltb_spec (length (cmd_line c (nl_chars s0) first (form_suffix fm)))
+                           (length (cbuf s0))) as [Hlt|Hge].
+    + destruct (pcf_ok s0 (setk_cmd (Some i) s) i (ty_of fm) first c (form_suffix fm) (next_of fm))
+        as (P1 & P2 & P3 & P4).
+      { apply LInv_setcmd. exact HL. }
+      { apply not_in_line. exact Hn0. }
+      { exact Hlt. }
+      eexists. split; [exact P4|]. intros fuel acc.
+      rewrite list_run_S, Hst, cstate_beq_refl. cbv zeta. rewrite Epcl, P1, P2, P3.
+      rewrite !cstate_beq_refl. reflexivity.
+    + pose proof (pcf_fail s0 (setk_cmd (Some i) s) i (ty_of fm) first c (form_suffix fm) (next_of fm)
+                           (LInv_setcmd _ _ _ _ _ _ HL) H6 Hge) as HE.
+      eexists. split; [exact HE|]. intros fuel acc.
+      destruct HE as (E1 & E2 & E3 & E4).
+      rewrite list_run_S, Hst, cstate_beq_refl. cbv zeta. rewrite Epcl, E2, E3.
+      cbn [cstate_beq andb]. apply list_run_stop. exact E2.
+  - exists (setk_type (next_of fm) (setk_cmd (Some i) s)). split.
+    + unfold LInv. sst. repeat split; assumption.
+    + intros fuel acc. rewrite list_run_S, Hst, cstate_beq_refl. cbv zeta. rewrite Epcl.
+      unfold print_cmd_form. sst. rewrite Hst. reflexivity.
+Qed.
+
+(* ---- moving to the next command ---- *)
+Definition NextState (s0 : state) (i : nat) (s2 : state) : Prop :=
+  if S i <? ncmds D then LInv s0 s2 (S i) T_NONE true else EndState txt_OK s2.
+
+Lemma NextState_quiet : forall s0 i s2, NextState s0 i s2 ->
+  cstate_beq (k_state (k s2)) CS_FLUSH_WAIT && cstate_beq (k_wafter (k s2)) CS_PRINT_CMD = false.
+Proof.
+  intros s0 i s2 H. unfold NextState in H. destruct (S i <? ncmds D).
+  - destruct H as (_ & -> & _). reflexivity.
+  - destruct H as (_ & -> & -> & _). reflexivity.
+Qed.
+
+Lemma next_cmd : forall s0 s i ty first,
+  LInv s0 s i ty first -> 6 <= length (cbuf s0) ->
+  NextState s0 i (let (s1, more) := cmd_list_next_cmd D s in if more then s1 else ack_ok s1).
+Proof.
+  intros s0 s i ty first (Hf & Hst & Hi & Hty & Hkl & Hlen & Hcr & Hdc & Hdg) H6.
+  unfold cmd_list_next_cmd, NextState. cbv zeta. rewrite Hi.
+  destruct (Nat.leb_spec (ncmds D) (S i)) as [H|H];
+    destruct (Nat.ltb_spec (S i) (ncmds D)) as [H'|H']; try lia.
+  - apply ack_ok_end; sst; [exact Hf|lia].
+  - unfold LInv. sst. repeat split; assumption.
+Qed.
+
+Lemma run_total : forall s0 s i first c,
+  LInv s0 s i T_TOTAL first -> nth_error (cmds D) i = Some c -> 6 <= length (cbuf s0) ->
+  exists s2, NextState s0 i s2 /\
+    forall fuel acc, list_run D (S fuel) s acc = list_run D fuel s2 acc.
+Proof.
+  intros s0 s i first c HL Hn H6.
+  pose proof HL as (Hf & Hst & Hi & Hty & _).
+  pose proof (next_cmd s0 (setk_cmd (Some i) s) i T_TOTAL first (LInv_setcmd _ _ _ _ _ _ HL) H6) as HN.
+  eexists. split; [exact HN|]. intros fuel acc.
+  rewrite list_run_S, Hst, cstate_beq_refl. cbv zeta.
+  assert (E : print_cmd_list D s
+              = let (s1, more) := cmd_list_next_cmd D (setk_cmd (Some i) s) in
+                if more then s1 else ack_ok s1).
+  { unfold print_cmd_list. rewrite Hi, cmd_by_index_concat.
+    change (concat (d_groups D)) with (cmds D). rewrite Hn. cbv zeta.
+    change (k_type (k (setk_cmd (Some i) s))) with (k_type (k s)). rewrite Hty. reflexivity. }
+  rewrite E, (NextState_quiet _ _ _ HN). reflexivity.
+Qed.
+
+Lemma disable_frame : forall s0 s i x, dis_cmd s = dis_cmd s0 -> dis_grp s = dis_grp s0 ->
+  is_command_disable D (setk_cmd x s) i = is_command_disable D s0 i.
+Proof.
+  intros s0 s i x H1 H2. unfold is_command_disable. sst. rewrite H1, H2. reflexivity.
+Qed.
+
+Lemma run_none : forall s0 s i first c,
+  LInv s0 s i T_NONE first -> nth_error (cmds D) i = Some c -> 6 <= length (cbuf s0) ->
+  if is_command_disable D s0 i
+  then exists s2, NextState s0 i s2 /\
+         forall fuel acc, list_run D (S fuel) s acc = list_run D fuel s2 acc
+  else exists s2, LInv s0 s2 i (if c_only_test c then T_TEST else T_RUN) first /\
+         forall fuel acc, list_run D (S fuel) s acc = list_run D fuel s2 acc.
+Proof.
+  intros s0 s i first c HL Hn H6.
+  pose proof HL as (Hf & Hst & Hi & Hty & Hkl & Hlen & Hcr & Hdc & Hdg).
+  assert (E : print_cmd_list D s
+              = if is_command_disable D s0 i then
+                  let (s1, more) := cmd_list_next_cmd D (setk_cmd (Some i) s) in
+                  if more then s1 else ack_ok s1
+                else setk_type (if c_only_test c then T_TEST else T_RUN) (setk_cmd (Some i) s)).
+  { unfold print_cmd_list. rewrite Hi, cmd_by_index_concat.
+    change (concat (d_groups D)) with (cmds D). rewrite Hn. cbv zeta.
+    change (k_type (k (setk_cmd (Some i) s))) with (k_type (k s)). rewrite Hty.
+    rewrite (disable_frame s0 s i (Some i) Hdc Hdg). reflexivity. }
+  destruct (is_command_disable D s0 i).
+  - pose proof (next_cmd s0 (setk_cmd (Some i) s) i T_NONE first (LInv_setcmd _ _ _ _ _ _ HL) H6) as HN.
+    eexists. split; [exact HN|]. intros fuel acc.
+    rewrite list_run_S, Hst, cstate_beq_refl. cbv zeta.
+    rewrite E, (NextState_quiet _ _ _ HN). reflexivity.
+  - eexists. split.
+    2:{ intros fuel acc. rewrite list_run_S, Hst, cstate_beq_refl. cbv zeta. rewrite E.
+        sst. rewrite Hst. reflexivity. }
+    unfold LInv. sst. repeat split; assumption.
+Qed.
+
+(* ---- the forms of one command ---- *)
+Fixpoint form_lines (c : cmd) (nl : list N) (first : bool) (fs : list form) : list (list N) :=
+  match fs with
+  | [] => []
+  | fm :: r => if avail c fm then cmd_line c nl first (form_suffix fm) :: form_lines c nl false r
+               else form_lines c nl first r
+  end.
+
+Definition head_ty (fs : list form) : ctype :=
+  match fs with [] => T_TOTAL | fm :: _ => ty_of fm end.
+Fixpoint chain (fs : list form) : Prop :=
+  match fs with [] => True | fm :: r => next_of fm = head_ty r /\ chain r end.
+
+Definition fits (bsz : nat) (l : list N) : bool := length l <? bsz.
+
+Lemma run_forms : forall s0 i c,
+  nth_error (cmds D) i = Some c -> ~ In 0%N (c_name c) -> 6 <= length (cbuf s0) ->
+  forall fs, chain fs -> forall s first, LInv s0 s i (head_ty fs) first ->
+  if forallb (fits (length (cbuf s0))) (form_lines c (nl_chars s0) first fs)
+  then exists s2 first', LInv s0 s2 i T_TOTAL first' /\
+         forall fuel acc, list_run D (length fs + fuel) s acc
+                          = list_run D fuel s2 (acc ++ form_lines c (nl_chars s0) first fs)
+  else exists n l s2,
+         nth_error (form_lines c (nl_chars s0) first fs) n = Some l /\
+         length (cbuf s0) <= length l /\
+         forallb (fits (length (cbuf s0))) (firstn n (form_lines c (nl_chars s0) first fs)) = true /\
+         EndState txt_ERROR s2 /\
+         forall fuel acc, list_run D (length fs + fuel) s acc
+                          = (acc ++ firstn n (form_lines c (nl_chars s0) first fs), s2).
+Proof.
+  intros s0 i c Hn Hn0 H6.
+  induction fs as [|fm r IH]; intros Hch s first HL.
+  - cbn [form_lines forallb]. exists s, first. split; [exact HL|].
+    intros fuel acc. rewrite app_nil_r. reflexivity.
+  - destruct Hch as [Hnx Hch]. cbn [head_ty] in HL.
+    pose proof (run_form s0 s i fm first c HL Hn Hn0 H6) as R.
+    cbn [form_lines length]. destruct (avail c fm).
+    + cbn [forallb]. unfold fits at 1.
+      destruct (Nat.ltb_spec (length (cmd_line c (nl_chars s0) first (form_suffix fm)))
+                             (length (cbuf s0))) as [Hlt|Hge].
+      * destruct R as (s2 & HL2 & R). rewrite Hnx in HL2. specialize (IH Hch s2 false HL2).
+        cbn [andb].
+        destruct (forallb (fits (length (cbuf s0))) (form_lines c (nl_chars s0) false r)).
+        -- destruct IH as (s3 & first' & HL3 & R3). exists s3, first'. split; [exact HL3|].
+           intros fuel acc. cbn [plus]. rewrite R, R3, <- app_assoc. reflexivity.
+        -- destruct IH as (n & l & s3 & I1 & I2 & I3 & I4 & R3).
+           exists (S n), l, s3. cbn [nth_error firstn forallb]. unfold fits at 1.
+           apply Nat.ltb_lt in Hlt. rewrite Hlt. cbn [andb].
+           repeat (split; [first [assumption|reflexivity]|]).
+           intros fuel acc. cbn [plus]. rewrite R, R3, <- app_assoc. reflexivity.
+      * destruct R as (s2 & HE & R). cbn [andb].
+        exists 0, (cmd_line c (nl_chars s0) first (form_suffix fm)), s2.
+        cbn [nth_error firstn forallb]. repeat (split; [first [assumption|reflexivity]|]).
+        intros fuel acc. cbn [plus]. rewrite R, app_nil_r. reflexivity.
+    + destruct R as (s2 & HL2 & R). rewrite Hnx in HL2. specialize (IH Hch s2 first HL2).
+      destruct (forallb (fits (length (cbuf s0))) (form_lines c (nl_chars s0) first r)).
+      * destruct IH as (s3 & first' & HL3 & R3). exists s3, first'. split; [exact HL3|].
+        intros fuel acc. cbn [plus]. rewrite R, R3. reflexivity.
+      * destruct IH as (n & l & s3 & I1 & I2 & I3 & I4 & R3).
+        exists n, l, s3. repeat (split; [first [assumption|reflexivity]|]).
+        intros fuel acc. cbn [plus]. rewrite R, R3. reflexivity.
+Qed.
+
+Lemma spec_lines_eq : forall c nl,
+  spec_cmd_lines c nl
+  = form_lines c nl true (if c_only_test c then [F_TEST] else [F_RUN; F_READ; F_WRITE; F_TEST]).
+Proof.
+  intros c nl. unfold spec_cmd_lines, advertised, readable, writable, nonempty.
+  cbn [filter]. unfold form_lines, avail, vars_access_possible, cmd_line.
+  destruct (c_only_test c), (c_hrun c),
+    (c_hread c || existsb (fun v => vaccess_beq (v_access v) RW || vaccess_beq (v_access v) RO) (c_vars c)),
+    (c_hwrite c || existsb (fun v => vaccess_beq (v_access v) RW || vaccess_beq (v_access v) WO) (c_vars c)),
+    (c_htest c || match c_vars c with [] => false | _ :: _ => true end);
+    reflexivity.
+Qed.
+
+(* ---- one command ---- *)
+Definition cmd_lines (s0 : state) (i : nat) (c : cmd) : list (list N) :=
+  if negb (is_command_disable D s0 i) then spec_cmd_lines c (nl_chars s0) else [].
+
+Lemma run_cmd : forall s0 s i c,
+  LInv s0 s i T_NONE true -> nth_error (cmds D) i = Some c -> ~ In 0%N (c_name c) ->
+  6 <= length (cbuf s0) ->
+  if forallb (fits (length (cbuf s0))) (cmd_lines s0 i c)
+  then exists s2 used, used <= 6 /\ NextState s0 i s2 /\
+         forall fuel acc, list_run D (used + fuel) s acc
+                          = list_run D fuel s2 (acc ++ cmd_lines s0 i c)
+  else exists n l s2,
+         nth_error (cmd_lines s0 i c) n = Some l /\
+         length (cbuf s0) <= length l /\
+         forallb (fits (length (cbuf s0))) (firstn n (cmd_lines s0 i c)) = true /\
+         EndState txt_ERROR s2 /\
+         forall fuel acc, list_run D (6 + fuel) s acc = (acc ++ firstn n (cmd_lines s0 i c), s2).
+Proof.
+  intros s0 s i c HL Hn Hn0 H6. unfold cmd_lines.
+  pose proof (run_none s0 s i true c HL Hn H6) as R0.
+  destruct (is_command_disable D s0 i); cbn [negb].
+  - destruct R0 as (s2 & HN & R0). cbn [forallb].
+    exists s2, 1. split; [lia|]. split; [exact HN|].
+    intros fuel acc. cbn [plus]. rewrite R0, app_nil_r. reflexivity.
+  - destruct R0 as (s1 & HL1 & R0). rewrite spec_lines_eq.
+    set (fs := if c_only_test c then [F_TEST] else [F_RUN; F_READ; F_WRITE; F_TEST]).
+    assert (Hch : chain fs) by (subst fs; destruct (c_only_test c); cbn; auto).
+    assert (Hhd : head_ty fs = if c_only_test c then T_TEST else T_RUN)
+      by (subst fs; destruct (c_only_test c); reflexivity).
+    assert (Hlen : length fs <= 4) by (subst fs; destruct (c_only_test c); cbn [length]; lia).
+    rewrite <- Hhd in HL1.
+    pose proof (run_forms s0 i c Hn Hn0 H6 fs Hch s1 true HL1) as RF.
+    destruct (forallb (fits (length (cbuf s0))) (form_lines c (nl_chars s0) true fs)).
+    + destruct RF as (s2 & first' & HL2 & RF).
+      destruct (run_total s0 s2 i first' c HL2 Hn H6) as (s3 & HN & RT).
+      exists s3, (S (length fs + 1)). split; [lia|]. split; [exact HN|].
+      intros fuel acc. cbn [plus]. rewrite R0.
+      replace (length fs + 1 + fuel) with (length fs + S fuel) by lia.
+      rewrite RF, RT. reflexivity.
+    + destruct RF as (n & l & s2 & I1 & I2 & I3 & I4 & RF).
+      exists n, l, s2. repeat (split; [assumption|]).
+      intros fuel acc. change (6 + fuel) with (S (5 + fuel)). rewrite R0.
+      replace (5 + fuel) with (length fs + (5 - length fs + fuel)) by lia.
+      apply RF.
+Qed.
+
+(* ---- all commands ---- *)
+Definition lines_from (s0 : state) (i : nat) (cs : list cmd) : list (list N) :=
+  flat_map (fun ic => if negb (is_command_disable D s0 (fst ic))
+                      then spec_cmd_lines (snd ic) (nl_chars s0) else [])
+           (combine (seq i (length cs)) cs).
+
+Lemma lines_from_cons : forall s0 i c cs,
+  lines_from s0 i (c :: cs) = cmd_lines s0 i c ++ lines_from s0 (S i) cs.
+Proof. reflexivity. Qed.
+
+Lemma run_cmds : forall s0, 6 <= length (cbuf s0) ->
+  (forall c, In c (cmds D) -> ~ In 0%N (c_name c)) ->
+  forall post c pre s, cmds D = pre ++ c :: post -> LInv s0 s (length pre) T_NONE true ->
+  forall fuel acc, 6 * length (c :: post) <= fuel ->
+  exists out s', list_run D fuel s acc = (out, s') /\
+    if forallb (fits (length (cbuf s0))) (lines_from s0 (length pre) (c :: post))
+    then out = acc ++ lines_from s0 (length pre) (c :: post) /\ EndState txt_OK s'
+    else (exists n l, out = acc ++ firstn n (lines_from s0 (length pre) (c :: post)) /\
+            nth_error (lines_from s0 (length pre) (c :: post)) n = Some l /\
+            length (cbuf s0) <= length l /\
+            forallb (fits (length (cbuf s0)))
+                    (firstn n (lines_from s0 (length pre) (c :: post))) = true) /\
+         EndState txt_ERROR s'.
+Proof.
+  intros s0 H6 Hnames.
+  induction post as [|c2 post IH]; intros c pre s Hc HL fuel acc Hfuel;
+    assert (Hn : nth_error (cmds D) (length pre) = Some c) by (rewrite Hc; apply nth_mid);
+    assert (Hn0 : ~ In 0%N (c_name c))
+      by (apply Hnames; rewrite Hc; apply in_or_app; right; left; reflexivity);
+    pose proof (run_cmd s0 s (length pre) c HL Hn Hn0 H6) as RC;
+    rewrite lines_from_cons, forallb_app;
+    destruct (forallb (fits (length (cbuf s0))) (cmd_lines s0 (length pre) c)) eqn:EF;
+    cbn [andb].
+  - (* last command, fits *)
+    destruct RC as (s2 & used & Hu & HN & RC).
+    unfold NextState in HN.
+    assert (E : S (length pre) <? ncmds D = false).
+    { apply Nat.ltb_ge. unfold ncmds. rewrite Hc, app_length. cbn [length]. lia. }
+    rewrite E in HN. cbn [length] in Hfuel.
+    replace fuel with (used + (fuel - used)) by lia. rewrite RC.
+    cbn [lines_from length seq combine flat_map forallb]. rewrite app_nil_r.
+    eexists. eexists. split; [apply list_run_stop; apply HN|]. split; [reflexivity|exact HN].
+  - (* last command, a line does not fit *)
+    destruct RC as (n & l & s2 & I1 & I2 & I3 & I4 & RC).
+    cbn [length] in Hfuel. replace fuel with (6 + (fuel - 6)) by lia. rewrite RC.
+    cbn [lines_from length seq combine flat_map]. rewrite app_nil_r.
+    eexists. eexists. split; [reflexivity|]. split; [|exact I4].
+    exists n, l. repeat (split; [first [assumption|reflexivity]|]). assumption.
+  - (* more commands, this one fits *)
+    destruct RC as (s2 & used & Hu & HN & RC).
+    unfold NextState in HN.
+    assert (E : S (length pre) <? ncmds D = true).
+    { apply Nat.ltb_lt. unfold ncmds. rewrite Hc, app_length. cbn [length]. lia. }
+    rewrite E in HN. cbn [length] in Hfuel.
+    replace fuel with (used + (fuel - used)) by lia. rewrite RC.
+    specialize (IH c2 (pre ++ [c]) s2).
+    replace (length (pre ++ [c])) with (S (length pre)) in IH
+      by (rewrite app_length; cbn [length]; lia).
+    destruct (IH ltac:(rewrite Hc, <- app_assoc; reflexivity) HN (fuel - used)
+                 (acc ++ cmd_lines s0 (length pre) c) ltac:(cbn [length]; lia))
+      as (out & s' & ER & HR).
+    exists out, s'. split; [exact ER|].
+    destruct (forallb (fits (length (cbuf s0))) (lines_from s0 (S (length pre)) (c2 :: post))).
+    + destruct HR as (-> & HE). split; [|exact HE]. rewrite app_assoc. reflexivity.
+    + destruct HR as ((n & l & -> & I1 & I2 & I3) & HE). split; [|exact HE].
+      exists (length (cmd_lines s0 (length pre) c) + n), l.
+      rewrite firstn_app_2. split; [rewrite app_assoc; reflexivity|].
+      split; [rewrite nth_error_app2 by lia;
+              replace (length (cmd_lines s0 (length pre) c) + n - length (cmd_lines s0 (length pre) c))
+                with n by lia; exact I1|].
+      split; [exact I2|]. rewrite forallb_app, EF, I3. reflexivity.
+  - (* more commands, a line of this one does not fit *)
+    destruct RC as (n & l & s2 & I1 & I2 & I3 & I4 & RC).
+    cbn [length] in Hfuel. replace fuel with (6 + (fuel - 6)) by lia. rewrite RC.
+    eexists. eexists. split; [reflexivity|]. split; [|exact I4].
+    assert (Hlt : n < length (cmd_lines s0 (length pre) c))
+      by (apply nth_error_Some; rewrite I1; discriminate).
+    exists n, l. rewrite firstn_app.
+    replace (n - length (cmd_lines s0 (length pre) c)) with 0 by lia.
+    cbn [firstn]. rewrite app_nil_r.
+    split; [reflexivity|]. split; [rewrite nth_error_app1 by exact Hlt; exact I1|].
+    split; assumption.
+Qed.
+
+Lemma spec_cmd_list_eq : forall s,
+  spec_cmd_list D (fun i => negb (is_command_disable D s i)) (nl_chars s)
+  = lines_from s 0 (cmds D).
+Proof. reflexivity. Qed.
+
+(* strong form: when a line does not fit, it exists and is the first one that does not fit *)
+Theorem C19_list_strong_proof : forall s,
+  fault s = false -> 6 <= length (cbuf s) ->
+  (forall c, In c (cmds D) -> ~ In 0%N (c_name c)) ->
+  let s0 := start_print_cmd_list D s in
+  let lines := spec_cmd_list D (fun i => negb (is_command_disable D s i)) (nl_chars s) in
+  forall fuel, 6 * ncmds D + 1 <= fuel ->
+  let '(out, s') := list_run D fuel s0 [] in
+  fault s' = false /\ k_state (k s') = CS_FLUSH_WAIT /\ k_wafter (k s') = CS_AFTER_RESET /\
+  if forallb (fun l => length l <? length (cbuf s)) lines
+  then out = lines /\ text_of (cbuf s') = txt_OK
+  else (exists n l, out = firstn n lines /\ nth_error lines n = Some l /\
+        length (cbuf s) <= length l /\
+        forallb (fun l => length l <? length (cbuf s)) out = true) /\
+       text_of (cbuf s') = txt_ERROR.
+Proof.
+  intros s Hf H6 Hnames s0 lines fuel Hfuel. subst s0 lines.
+  rewrite spec_cmd_list_eq. unfold start_print_cmd_list, ncmds in *.
+  destruct (cmds D) as [|c post] eqn:Ec.
+  - cbn [length Nat.eqb]. rewrite list_run_stop by reflexivity.
+    destruct (ack_ok_end s Hf H6) as (A1 & A2 & A3 & A4).
+    cbn [lines_from length seq combine flat_map forallb].
+    repeat (split; [first [assumption|reflexivity]|]). assumption.
+  - cbn [length Nat.eqb]. rewrite <- Ec in Hnames.
+    destruct (run_cmds s H6 Hnames post c []
+                (s |> setk_index 0 |> setk_length 0 |> setk_type T_NONE |> setk_state CS_PRINT_CMD))
+      with (fuel := fuel) (acc := @nil (list N)) as (out & s' & ER & HR).
+    { exact Ec. }
+    { unfold LInv. sst. repeat split; try reflexivity. exact Hf. }
+    { cbn [length] in *. lia. }
+    rewrite ER. cbn [length app] in HR.
+    change (fits (length (cbuf s))) with (fun l : list N => length l <? length (cbuf s)) in HR.
+    destruct (forallb (fun l : list N => length l <? length (cbuf s)) (lines_from s 0 (c :: post))).
+    + destruct HR as (-> & A1 & A2 & A3 & A4).
+      repeat (split; [first [assumption|reflexivity]|]). assumption.
+    + destruct HR as ((n & l & -> & I1 & I2 & I3) & A1 & A2 & A3 & A4).
+      repeat (split; [first [assumption|reflexivity]|]).
+      split; [|assumption]. exists n, l. repeat (split; [first [assumption|reflexivity]|]). assumption.
+Qed.
+
+Theorem C19_list_proof : forall s,
+  fault s = false -> 6 <= length (cbuf s) ->
+  (forall c, In c (cmds D) -> ~ In 0%N (c_name c)) ->
+  let s0 := start_print_cmd_list D s in
+  let lines := spec_cmd_list D (fun i => negb (is_command_disable D s i)) (nl_chars s) in
+  forall fuel, 6 * ncmds D + 1 <= fuel ->
+  let '(out, s') := list_run D fuel s0 [] in
+  fault s' = false /\ k_state (k s') = CS_FLUSH_WAIT /\ k_wafter (k s') = CS_AFTER_RESET /\
+  if forallb (fun l => length l <? length (cbuf s)) lines
+  then out = lines /\ text_of (cbuf s') = txt_OK
+  else (exists n, out = firstn n lines /\
+        (forall l, nth_error lines n = Some l -> length (cbuf s) <= length l) /\
+        forallb (fun l => length l <? length (cbuf s)) out = true) /\
+       text_of (cbuf s') = txt_ERROR.
+Proof.
+  intros s Hf H6 Hnames s0 lines fuel Hfuel.
+  pose proof (C19_list_strong_proof s Hf H6 Hnames fuel Hfuel) as H.
+  cbv zeta in H. fold s0 in H. fold lines in H.
+  destruct (list_run D fuel s0 []) as [out s'].
+  destruct H as (A1 & A2 & A3 & H). repeat (split; [assumption|]).
+  destruct (forallb (fun l : list N => length l <? length (cbuf s)) lines); [exact H|].
+  destruct H as ((n & l & I0 & I1 & I2 & I3) & A4). split; [|exact A4].
+  exists n. split; [exact I0|]. split; [|exact I3].
+  intros l' Hl'. rewrite I1 in Hl'. injection Hl' as <-. exact I2.
 Qed.
 End C19.
